@@ -339,6 +339,21 @@ func universe() []Val {
 			M map[string]safeIntT
 		}{[]safeT{"a", "b"}, secStr[v], map[string]safeIntT{secPlain[v]: 1}}
 	}))
+	// --- byte arrays where reflection is restricted: by value, behind unexported fields, with a named element type, as map values
+	add(sv("byte arrays: unexported field, named element type, map value, nested", true, func(v int) interface{} {
+		var a [4]byte
+		copy(a[:], secPlain[v])
+		return []interface{}{struct{ id [4]byte }{a}, [3]namedU8{namedU8(secPlain[v][0]), 'b', 'c'}, map[string][2]byte{"k": {a[0], a[1]}}, [2][2]byte{{a[0], 1}, {2, a[1]}}, struct {
+			A [2]byte
+			b [2]namedU8
+		}{[2]byte{a[0], a[1]}, [2]namedU8{namedU8(a[2]), 7}}}
+	}))
+	add(sv("struct with an unexported byte array", true, func(v int) interface{} {
+		var a [5]byte
+		copy(a[:], secPlain[v])
+		return struct{ id [5]byte }{a}
+	}))
+	add(sv("array of a named byte type", true, func(v int) interface{} { return [3]namedU8{namedU8(secPlain[v][0]), namedU8(secPlain[v][1]), 'z'} }))
 	// --- several classifications at once (see dblSafeT)
 	add(sv("registered+SafeValue elements before a secret", true, func(v int) interface{} {
 		return []interface{}{dblSafeT(7), secStr[v], []dblSafeT{1, 2}, secInt[v], map[dblSafeT]string{3: secPlain[v]}, struct {
